@@ -49,7 +49,10 @@ where
     words
         .map(|word| {
             let word = word.into();
-            if word_needs_escaping(word) {
+            if word.is_empty() {
+                // an empty argument must stay an argument: systemd reads `""` as an empty word
+                "\"\"".to_string()
+            } else if word_needs_escaping(word) {
                 format!("\"{}\"", quote_value(word))
             } else {
                 word.to_string()
